@@ -14,7 +14,9 @@ import vcommon as vc
 from hyprun import CaseResult
 
 SEVS = ["debug", "command", "info", "warning", "error", "fatal"]
-FACS = ["core", "config", "f1", "f2", "nofac"]
+LONGFAC = "a_very_long_facility_name_for_trusted_gateway_hosts"
+# names on both sides of the section's own registered option "verbose_timestamp" in configuration order
+FACS = ["core", "config", "f1", "f2", "nofac", "worker", "zeta", LONGFAC]
 FILES = ["a.log", "b.log", "c.log", "d.log"]
 LINE_RE = re.compile(r"^\[\d\d:\d\d:\d\d \d\d/\d\d/\d{4}\] \(([^:()]+):([a-z]+)\) (.*)$")
 
@@ -103,7 +105,7 @@ def sevexpr_s(draw):
     k = draw(st.integers(0, 9))
     if k == 0:
         return "*"
-    n = draw(st.sampled_from([1, 1, 1, 2, 3]))
+    n = draw(st.sampled_from([1, 1, 1, 2, 3, 5, 6]))
     items = []
     for _ in range(n):
         op = draw(st.sampled_from(["", "", "=", ">=", ">", "<=", "<"]))
@@ -121,7 +123,7 @@ def section_s(draw):
     out = []
     used = set()
     for _ in range(n):
-        fac = draw(st.sampled_from(["core", "config", "f1", "f2", "*", "*", "nofac", "F1"]))
+        fac = draw(st.sampled_from(["core", "config", "f1", "f2", "*", "*", "nofac", "F1", "worker", "zeta", "Worker", LONGFAC, LONGFAC]))
         key = fac + "." + draw(sevexpr_s())
         if draw(st.integers(0, 14)) == 0:
             key = draw(st.sampled_from(["nodot", fac, fac + "info", "." + "info", "f1..info"]))
@@ -206,6 +208,7 @@ def token(case, k, fac, s):
     """Unique message text; some are padded up to just below the logger's documented 1000-byte limit."""
     pads = case.get("pads") or [0]
     n = pads[(k * 7 + s + len(fac)) % len(pads)]
+    n = max(0, min(n, 986 - len(fac)))       # the whole message stays below the logger's documented 1000 bytes
     return "T%d-%s-%d-%s-end" % (k, fac, s, "x" * n)
 
 
@@ -274,7 +277,7 @@ def evaluate(case, ctx):
                         res.violations.append(V("incomplete_line", "line in %s is not a complete '[time] (facility:severity) message' line: %r" % (f, ln[:160])))
                     continue
                 msg = m.group(3)
-                tm = re.match(r"^T(\d+)-([a-z0-9]+)-(\d)-x*-end$", msg)
+                tm = re.match(r"^T(\d+)-([a-z0-9_]+)-(\d)-x*-end$", msg)
                 if not tm:
                     continue
                 seen.setdefault(msg, {}).setdefault("file:" + f, []).append((m.group(1), m.group(2)))
